@@ -437,6 +437,65 @@ class FrameSpace(Subspace):
         return res
 
 
+class RangeKeySpace(Subspace):
+    """Keys that form an arithmetic progression given as pd.RangeIndex (any start, positive and
+    negative steps), as the index of a Series key, and as NumPy / pd.Index arrays of the same numbers."""
+    shard = 8
+    RANGES = ((0, 1), (3, 1), (0, 2), (5, -1), (6, -2), (-2, 3), (0, -3))
+
+    def __init__(self, name, lo, hi, seed=0):
+        self.name, self.seed = name, seed
+        self.ws = W.WordSpace([0, 1], lo, hi)
+        self.warm_key = "rangekeys"
+
+    def size(self):
+        return len(self.ws) * len(self.RANGES)
+
+    def case(self, i):
+        wi, ri = divmod(i, len(self.RANGES))
+        return dict(xs=list(self.ws.at(wi)), start=self.RANGES[ri][0], step=self.RANGES[ri][1], seed=self.seed)
+
+    def run(self, case):
+        from groupby_lib import GroupBy
+
+        res = Result()
+        xs = case["xs"]
+        n = len(xs)
+        res.nontrivial = n >= 2
+        V, _ = C.make_values(xs, "f8", case["seed"])
+        start, step = case["start"], case["step"]
+        rng = pd.RangeIndex(start, start + step * n, step)
+        karr = np.asarray(rng)
+        seams = env.seams()
+        seams.set(executor=sched.NAMESPACE)
+        sched.set_schedule(sched.Schedule())
+        variants = [("pd.RangeIndex", lambda: rng), ("pd.Index", lambda: pd.Index(karr)),
+                    ("RangeIndex+ndarray (2 keys)", None)]
+        for name in RED + ALIGNED:
+            op = O.OPS[name]
+            res.execs += 1
+            b = gbh.call(lambda: op.fn(GroupBy(karr), O.Ctx(V=V, M=None, n=n)))
+            if b.raised:
+                continue
+            for label, mk in variants[:2]:
+                res.execs += 1
+                o = gbh.call(lambda: op.fn(GroupBy(mk()), O.Ctx(V=V, M=None, n=n)))
+                tag = f"{name} [keys={label} start={start} step={step}]"
+                if o.raised:
+                    res.fail("total", f"{tag}: raised {o.raised} (NumPy keys work)")
+                    continue
+                if op.kind == "reduce":
+                    bad = gbh.same_mapping(o, b, ordered=True)
+                else:
+                    co, cb = next(iter(o.values.values())), next(iter(b.values.values()))
+                    bad = None if len(co) == len(cb) and all(gbh.veq(x, y) for x, y in zip(co, cb)) \
+                        else f"{co} vs {cb}"
+                if bad:
+                    res.fail("values", f"{tag}: {bad} (vs NumPy keys)")
+        seams.reset()
+        return res
+
+
 def subspaces(tier, seed):
     q = tier == "quick"
     S = ContainerSpace
@@ -457,6 +516,7 @@ def subspaces(tier, seed):
     for at in ("int64", "int32", "uint8"):
         sp.append(S(f"arrow-nullable-{at}-values-n1to3", 2, 1, 3, key_conts=(),
                     val_conts=("pa_array", "pa_chunked", "pd_arrow", "polars"), arrow_int=at, seed=seed))
+    sp.append(RangeKeySpace(f"range-index-keys-n1to{4 if q else 6}", 1, 4 if q else 6, seed=seed))
     # several value columns of different dtypes at once, every key representation
     for cs in FrameSpace.COLSETS:
         if q and cs in ("f8+i4", "b+i2"):
